@@ -316,7 +316,10 @@ func (fr *Frame) builtin(b *ssa.Builtin, c *ssa.CallCommon, resT types.Type, set
 		return fr.mapDelete(h, mt, arg(0).T, arg(1).T)
 	case "recover":
 		// on the normal path recover() returns nil; in the recover block anything
-		if fr.fn.Recover != nil && fr.curBlock == fr.fn.Recover {
+		// nil on the normal path of a function whose deferred closures are inlined at rundefers; any
+		// value when the closure is verified as a unit of its own (it runs because of a panic) or in
+		// the Recover block
+		if fr.top || (fr.fn.Recover != nil && fr.curBlock == fr.fn.Recover) {
 			setRes(fr.symbolic("recovered", resT))
 		} else {
 			setRes(&Val{T: "(mk_iface 0 0)"})
